@@ -29,8 +29,12 @@ MANIFEST = {
     "note": "Cell tolerance 1e-9 of the field maximum; mass ladder: error non-increasing (5 % slack) and <= 2 % at 2.5 m for cases whose footprint peak is resolved by >= 4 cells at 20 m. Cases with negative power-law velocity constant U (physically impossible, the model returns an empty footprint with a warning) are excluded.",
 }
 
-PHYS = [(zm, z0, ws, us, L, sv) for zm, z0, (ws, us), L, sv in itertools.product((2.0, 5.0, 10.0, 30.0), (0.01, 0.1, 0.5), ((3.0, 0.3), (6.0, 0.6), (2.0, 0.5)), (-20.0, -500.0, 1e9, 200.0, 30.0), (0.5, 1.2))]
+PHYS = [(zm, z0, ws, us, L, sv) for zm, z0, (ws, us), L, sv in itertools.product((2.0, 5.0, 10.0, 30.0), (0.01, 0.1, 0.5), ((3.0, 0.3), (6.0, 0.6), (2.0, 0.5)), (-20.0, -500.0, 1e9, 200.0, 30.0, float("inf"), float("-inf")), (0.5, 1.2))]
 TYPES = {"float": float, "int": int, "np.int64": np.int64, "np.float64": np.float64, "np.int32": np.int32}
+
+
+class _GridMismatch(Exception):
+    pass
 
 
 def _call(*a, **k):
@@ -38,9 +42,32 @@ def _call(*a, **k):
 
     with warnings.catch_warnings():
         warnings.simplefilter("ignore")
-        return estimateFootprint(*a, **k)
+        gx, gy, f = estimateFootprint(*a, **k)
+    # the returned cell centres are part of the result: compare them with the documented layout (upper-left cell first,
+    # centres at xmin + (i + 1/2) res, ymax - (j + 1/2) res) before anything is derived from them
+    dom, res = a[6], float(a[7])
+    ex = np.arange(dom[0] + 0.5 * res, dom[1], res)
+    ey = np.arange(dom[3] - 0.5 * res, dom[2], -res)
+    EX, EY = np.meshgrid(ex, ey)
+    if np.shape(gx) != EX.shape or not (np.allclose(gx, EX, rtol=0, atol=1e-9) and np.allclose(gy, EY, rtol=0, atol=1e-9)):
+        raise _GridMismatch("returned cell centres are not those of the requested grid (domain %r, resolution %g): first centre (%r, %r), expected (%r, %r)" % (list(dom), res, np.ravel(gx)[0], np.ravel(gy)[0], EX[0, 0], EY[0, 0]))
+    return gx, gy, f
 
 
+def _grid_guard(fn):
+    import functools
+
+    @functools.wraps(fn)
+    def wrapped(case):
+        try:
+            return fn(case)
+        except _GridMismatch as e:
+            return {"v": [{"sub": "grid", "sig": "grid/cell-centres", "msg": "%s; case %s" % (e, core.canon(case)[:300])}], "nt": True, "n": 1}
+
+    return wrapped
+
+
+@_grid_guard
 def case_cells(chunk):
     v = []
     n = 0
@@ -92,6 +119,7 @@ def case_cells(chunk):
     return {"v": v[:6], "nt": n, "key": core.case_hash(chunk), "n": n}
 
 
+@_grid_guard
 def case_types(chunk):
     v = []
     n = 0
@@ -124,6 +152,7 @@ def case_types(chunk):
     return {"v": v[:6], "nt": n, "key": core.case_hash(chunk), "n": n}
 
 
+@_grid_guard
 def case_mass(case):
     zm, z0, ws, us, L, sv = case["p"]
     p = km.params(zm, z0, ws, us, L)
@@ -150,6 +179,7 @@ def case_mass(case):
     return {"v": v, "nt": bool(resolved), "n": len(ladder), "obs": {"captured_mass": I, "gammaincc": G, "errors": ["%.2e" % e for e in errs], "resolved": bool(resolved)}}
 
 
+@_grid_guard
 def case_history(case):
     """call histories on ONE output grid: every ordered sequence of (receptor, wind direction) calls up to the depth
     bound; each result must equal the closed form for ITS OWN arguments whatever was computed before"""
@@ -170,6 +200,7 @@ def case_history(case):
     return {"v": v, "nt": len(case["ops"]) > 1, "n": n}
 
 
+@_grid_guard
 def case_phys_history(case):
     """two consecutive calls on one grid that differ in exactly one physical parameter: the second must be its own closed form"""
     dom, res, mxy = [-100.0, 300.0, -150.0, 150.0], 10.0, [0.0, 0.0]
